@@ -137,6 +137,11 @@ Laws ==
 (********************************* export **********************************)
 DbHash == SumF([i \in Idx(db) |-> (IF i = 1 THEN 17 ELSE IF i = 2 THEN 19 ELSE 23) *
                                   (db[i].svc + 3 * db[i].tags + 17 * db[i].tl + 31 * db[i].per + 61 * db[i].bag + 101 * db[i].t)]) + Len(db)
+\* the quirks that turn an answer into an error hide what the other quirks would do to it: when the as-coded answer is an
+\* error, the case also carries the answer (coded2) and the firing quirks (fired2) of the mechanism without the error
+\* quirks, so that a code base in which an error quirk has been repaired is still recognised
+ErrQuirks == {"avg_sql", "merge_lineless", "merge_emptystack", "merge_incompatible"}
+IsErr(a)  == IF req.ep \in {"SelectSeries", "SelectMergeProfile"} THEN a.err # {} ELSE FALSE
 CaseRec(d, ma, fired) ==
     [db    |-> [i \in Idx(db) |-> [svc |-> Svc(db[i]), tags |-> Tags(db[i]), tl |-> TL(db[i]), per |-> Per(db[i]),
                                    bag |-> Bag(db[i]), t |-> db[i].t]],
@@ -144,7 +149,12 @@ CaseRec(d, ma, fired) ==
      req   |-> RQ,
      def   |-> d,
      coded |-> ma,
-     fired |-> fired]
+     fired |-> fired,
+     coded2 |-> IF IsErr(ma) THEN Mech(AllQuirks \ ErrQuirks) ELSE ma,
+     fired2 |-> IF IsErr(ma)
+                THEN LET m2 == Mech(AllQuirks \ ErrQuirks)
+                     IN  IF m2 = d THEN {} ELSE {q \in AllQuirks \ ErrQuirks : m2 # Mech((AllQuirks \ ErrQuirks) \ {q})}
+                ELSE fired]
 Selected == req.ep # "none" /\ ExportMod # 0 /\ (DbHash + ExportSeed) % ExportMod = 0
 
 \* the three invariants above and the export in ONE evaluation of the definition and of the two mechanisms per state
